@@ -339,6 +339,30 @@ func (x *Exec) spawn(fr *Frame, st *State, ins ssa.Instruction, fn *ssa.Function
 		x.assumed["detached goroutine "+key+": verified against its own contract; the spawning thread only learns that it was started (and which channel it will close)"] = true
 		return Value{}
 	}
+	if con := x.specs.contracts[funcKey(fn)]; con != nil && con.Attrs["detached"] == "yes" {
+		// a function literal with its own contract, declared detached: verified on its own against that contract;
+		// here only its precondition is checked, in the state at the spawn site, under the guard "it is started"
+		sub := st.clone()
+		sub.pc = And(st.pc, ran)
+		key := funcKey(fn)
+		env := x.specEnvFor(con, fn.Signature, fn.Pkg.Pkg, args, sub, sub)
+		fb := map[string]freeBinding{}
+		for i, fv := range fn.FreeVars {
+			if pt, ok := fv.Type().Underlying().(*types.Pointer); ok && clo != nil && i < len(clo.Binds) {
+				fb[fv.Name()] = freeBinding{ptr: clo.Binds[i], elem: pt.Elem()}
+			}
+		}
+		env.free = fb
+		for i, r := range con.Requires {
+			lab := r.Label
+			if lab == "" {
+				lab = fmt.Sprint(i + 1)
+			}
+			x.oblige(sub, "pre("+key+")", lab, site+".spawn", env.boolean(r.Expr), "precondition of a detached function at its spawn site")
+		}
+		x.assumed["detached goroutine "+key+": verified against its own contract; the spawning thread only learns that it was started"] = true
+		return Value{}
+	}
 	// in place
 	sub := st.clone()
 	sub.pc = And(st.pc, ran)
